@@ -560,7 +560,13 @@ pub fn run(ctx: &Ctx, rep: &mut Report) {
                 rep.violation("execute-accepts:already-executed", format!("a {} message took effect twice", kind));
                 break;
             }
-            // re-approving the executed message must not revive it either
+            // re-approving the executed message must not revive it either, however much later
+            if rng.chance(1, 3) {
+                let d = rng.ledger_jump();
+                if w.u.advance(d) {
+                    rep.count("advance-ledger-before-reapproval");
+                }
+            }
             let reapp = Attempt { approve: Some((HUB_CHAIN.to_vec(), mid.clone(), hub.clone(), payload.clone(), true)), deliver: (HUB_CHAIN.to_vec(), mid.clone(), hub.clone(), payload.clone()) };
             if let Ok(o3) = attempt(&mut w, &reapp, false) {
                 rep.eval("reapproved-after-execution", &format!("{}|reapproved|{}", kind, o3.ok()), true);
@@ -580,5 +586,5 @@ pub fn run(ctx: &Ctx, rep: &mut Report) {
     req.extend(KINDS.iter().map(|k| format!("conforming:{}", k)));
     rep.notes.insert("required".into(), json!(req));
     rep.notes.insert("token_mode".into(), json!("native"));
-    rep.notes.insert("rule".into(), json!("per universe 5 rounds: a conforming delivery (transfer to a service-deployed token, release of a locked canonical asset, transfer with data to a destination application, remote deploy; origin chain drawn from the currently trusted chains while one chain's trust flips between rounds) and, before it, 13 of 30 single deviations, each delivered at a checkpoint together with the approval that matches it in every other respect: never approved, approved for other payload / id / source address / contract, source chain or source address not the hub's, send-to-hub or out-of-range outer type, unsupported inner type, type words whose low byte is a supported tag but whose higher bytes are not zero, origin never trusted or no longer trusted, unknown token, undecodable recipient or minter (garbage, truncated, or well-formed XDR of a value that is not an address), amounts 2^127 / 2^128-1 / 2^128+1000 (bits 128..191 set) / 2^255, truncated / padded / non-canonical-offset payload, padded inner message, insufficient custody, failing application, deploy for a taken id or with empty name/symbol; then the conforming delivery (effects and consumption checked), the same delivery again, and again after re-approval. distinct = (conforming kind, deviation, outcome)"));
+    rep.notes.insert("rule".into(), json!("per universe 5 rounds: a conforming delivery (transfer to a service-deployed token, release of a locked canonical asset, transfer with data to a destination application, remote deploy; origin chain drawn from the currently trusted chains while one chain's trust flips between rounds) and, before it, 13 of 30 single deviations, each delivered at a checkpoint together with the approval that matches it in every other respect: never approved, approved for other payload / id / source address / contract, source chain or source address not the hub's, send-to-hub or out-of-range outer type, unsupported inner type, type words whose low byte is a supported tag but whose higher bytes are not zero, origin never trusted or no longer trusted, unknown token, undecodable recipient or minter (garbage, truncated, or well-formed XDR of a value that is not an address), amounts 2^127 / 2^128-1 / 2^128+1000 (bits 128..191 set) / 2^255, truncated / padded / non-canonical-offset payload, padded inner message, insufficient custody, failing application, deploy for a taken id or with empty name/symbol; then the conforming delivery (effects and consumption checked), the same delivery again, and again after re-approval (one time in three after ledger advancement up to the expiry of every temporary entry). distinct = (conforming kind, deviation, outcome)"));
 }
